@@ -80,7 +80,7 @@ def real_conditions(tname, dlen=3, slen=2, via='engine'):
         reset_tally_caches()
         values = {'@P1': s1, '@P2': s2, '@P3': s3, '@P4': s4, 9001: n1, 9002: n2, 9003: n3}
         eng = tmpl.load(text, values)
-        if tname != 'dates':
+        if not tname.startswith('dates'):
             y, m, d = 2024, 12, 7      # concrete date: only the dates template has a symbolic one
         txn = _mk_txn(desc, amount, fk, src, y, m, d)
         if via == 'engine':
@@ -148,7 +148,7 @@ def unknown_name(path, dlen=2):
             rules = [('ZZZZ', 'M', 'Cat', 'Sub', ParsedPattern(regex_pattern='ZZZZ', is_expression=False), 'user', []),
                      ('.', 'T', '', '', ParsedPattern(regex_pattern='.', is_expression=False), 'user', ['x'])]
         r1 = merchant_utils.normalize_merchant(desc, rules, amount=a1, txn_date=date(2024, 1, 2), field={'k': f1}, data_source='S1')
-        r2 = merchant_utils.normalize_merchant(desc, rules, amount=a2, txn_date=date(2025, 7, 9), field={'k': f2}, data_source='S2')
+        r2 = merchant_utils.normalize_merchant(desc, rules, amount=7, txn_date=date(2025, 7, 9), field={'k': 'zz'}, data_source='S2')
         ok = r1[1] == 'Unknown' and r1[2] == 'Unknown' and r2[1] == 'Unknown' and r2[2] == 'Unknown'
         ok = ok and r1[0] == r2[0] and isinstance(r1[0], str) and len(r1[0]) > 0
         return post(ok)
@@ -279,7 +279,7 @@ subcategory: SD
 """
 
 
-def transforms_chain(dlen=2, slen=1):
+def transforms_chain(part, dlen=2, slen=1):
     """Field transforms are applied in file order, each seeing the result of the previous one, before matching."""
     from harness import tmpl
     global DLEN, SLEN
@@ -292,6 +292,10 @@ def transforms_chain(dlen=2, slen=1):
         """
         from tally import merchant_utils
         reset_tally_caches()
+        if part == 'memo':
+            desc, s1, s4 = 'QQ', 'Q', 'ZZZ'      # description side concrete, never matches [D]
+        else:
+            memo, s2, s3 = 'mm', 'x', 'never'     # memo side concrete, never matches [M]
         values = {'@P1': s1, '@P2': s2, '@P3': s3, '@P4': s4}
         eng = tmpl.load(T_TRANSFORM, values)
         merchant_utils._cached_engine = eng
@@ -336,23 +340,25 @@ def obligations(tier, seed):
             obs.append(Obligation(id='sel-first-n4-c' + ''.join('1' if c else '0' for c in cats), factory='sel_first',
                                   params={'n': 4, 'cats': list(cats)}, timeout=300, group='selection core',
                                   bounds='4 rules; has-category pattern fixed, truth vector and has-subcategory symbolic'))
-    tnames = ['vars', 'letshadow', 'dates', 'fields', 'funcs', 'fail']
+    from harness import tmpl as _t
+    tnames = list(_t.TEMPLATES)
     q = tier == 'quick'
     dl, sl = (2, 1) if q else (3, 2)
     for t in tnames:
         obs.append(Obligation(id=f'real-{t}', factory='real_conditions', params={'tname': t, 'dlen': dl, 'slen': sl},
                               timeout=170 if q else 1500, group='real conditions',
                               bounds=f'template {t}: description <= {dl}, string constants/field/source <= {sl} ASCII chars, integer amount and thresholds, date in 2024-2025'))
-    for t in (['letshadow', 'fields'] if q else tnames):
+    for t in (['letshadow', 'fields1', 'vars2'] if q else tnames):
         obs.append(Obligation(id=f'norm-{t}', factory='real_conditions', params={'tname': t, 'dlen': dl, 'slen': sl, 'via': 'normalize'},
                               timeout=170 if q else 1500, group='normalize_merchant, engine path',
                               bounds=f'template {t} through normalize_merchant with the cached engine; description <= {dl}, constants <= {sl}'))
     for path in ['engine', 'legacy']:
         obs.append(Obligation(id=f'unknown-{path}', factory='unknown_name', params={'path': path, 'dlen': 2 if q else 3}, timeout=170 if q else 1500,
                               group='Unknown fallback', bounds=f'description <= {2 if q else 3} chars over the alphabet (a,B,1,blank,-); two different amounts/dates/sources/fields'))
-    for i, rows in enumerate([[0, 1, 4], [2, 3, 4], [1, 3, 0]] if tier == 'quick' else [[0, 1, 4], [2, 3, 4], [1, 3, 0], [0, 1, 2, 3, 4], [4, 3, 2, 1, 0]]):
+    for i, rows in enumerate([[0, 1, 4], [2, 4], [3, 4], [1, 3, 0]] if tier == 'quick' else [[0, 1, 4], [2, 4], [3, 4], [2, 3, 4], [1, 3, 0], [0, 1, 2, 3, 4], [4, 3, 2, 1, 0]]):
         obs.append(Obligation(id=f'legacy-mod-{i}', factory='legacy_modifiers', params={'rows': rows}, timeout=170 if tier == 'quick' else 900, reals=True,
                               group='legacy CSV tuples', bounds='CSV rows %r loaded by the real loader; regex truth vector (re.search stubbed), modifier values, amount (two decimals) and date symbolic' % rows))
-    obs.append(Obligation(id='transforms-chain', factory='transforms_chain', params={'dlen': dl, 'slen': sl}, timeout=170 if tier == 'quick' else 1500,
+    for part in ['memo', 'desc']:
+      obs.append(Obligation(id=f'transforms-{part}', factory='transforms_chain', params={'part': part, 'dlen': dl, 'slen': sl}, timeout=170 if tier == 'quick' else 1500,
                           group='transforms', bounds=f'3 transforms (description prefix, memo prefix, memo uppercase); description/memo/compared constant <= {dl}, prefixes <= {sl} ASCII chars'))
     return obs
